@@ -5,8 +5,9 @@ set -u
 d=$1; i=$2
 export GOFLAGS=-mod=mod GOPROXY=off GOSUMDB=off GOTOOLCHAIN=local
 wt=$(mktemp -d /tmp/cs-XXXX); rmdir $wt
-git -C /repo worktree add --detach $wt >/dev/null 2>&1 || { echo "worktree failed"; exit 3; }
-pkgdir=$(grep -m1 -oE "pkg/(yang|indent)" $d/demo${i}_test.go || true)
+git -C /repo worktree add --detach $wt ${SEED_BASE:-HEAD} >/dev/null 2>&1 || { echo "worktree failed"; exit 3; }
+pkgdir=$(head -3 $d/demo${i}_test.go | grep -m1 -oE "package dir: *[^ ]+" | sed 's/package dir: *//' || true)
+[ -z "$pkgdir" ] && pkgdir=$(grep -m1 -oE "pkg/(yang|indent)" $d/demo${i}_test.go || true)
 [ -z "$pkgdir" ] && pkgdir=$(grep -q "^package main" $d/demo${i}_test.go && echo "." || echo "pkg/yang")
 cp $d/demo${i}_test.go $wt/$pkgdir/zz_seeddemo_test.go
 cd $wt
